@@ -9,6 +9,8 @@ package main
 // requests
 //   {"id":1,"mode":"list"}                                  -> own properties of every global object
 //   {"id":2,"mode":"src","src":"1 + nil","stdin":""}        -> parse + evaluate in a child scope
+//   {"id":4,"mode":"repl","src":"1 + 2\nmulti\n..."}       -> runscript.StartREPL on these input lines
+//   {"id":5,"mode":"script","src":"...","stdin":""}         -> runscript.RunSource (parse, evaluate, error report, exit code)
 //   {"id":3,"mode":"direct","recv":"Int","prop":"+","args":["1","nil"],"kw":"{base: 2}"}
 //        -> look the property up along recv's prototypes; if it is a Go built-in, call
 //           Fn(env, kwargs, args...) with exactly these arguments (0 arguments included)
@@ -29,6 +31,7 @@ import (
 
 	"github.com/Syuparn/pangaea/evaluator"
 	"github.com/Syuparn/pangaea/object"
+	"github.com/Syuparn/pangaea/runscript"
 )
 
 func init() { register("crash", cmdCrash) }
@@ -178,6 +181,20 @@ func crashOne(req crashReq, global *object.Env, out *bytes.Buffer,
 	case "src":
 		r := evalIn(req.Src, env, out)
 		return crashRes{Kind: r.Kind, Repr: truncate(r.Repr, 200), ErrK: r.ErrK, Msg: truncate(r.ErrMsg, 200), Panic: r.Panic, Site: r.Site, Stack: r.Stack}
+	case "repl":
+		// the interactive front end: req.Src is what the user types (lines), answers go to a buffer
+		var rout bytes.Buffer
+		evaluator.VerifFuel = evalFuel * 20
+		runscript.StartREPL("", strings.NewReader(req.Src), &rout)
+		evaluator.VerifFuel = -1
+		return crashRes{Kind: "value", Repr: truncate(rout.String(), 200)}
+	case "script":
+		// the script front end: parse + evaluate + error report + exit code
+		var rout bytes.Buffer
+		evaluator.VerifFuel = evalFuel * 20
+		code := runscript.RunSource(req.Src, "demo.pangaea", strings.NewReader(req.Stdin), &rout)
+		evaluator.VerifFuel = -1
+		return crashRes{Kind: "value", Repr: fmt.Sprintf("exit %d: %s", code, truncate(rout.String(), 160))}
 	case "direct":
 		recv, ok := evalArg(req.Recv, env)
 		if !ok {
